@@ -10,7 +10,7 @@ import (
 
 // hLabelOfValue maps a library Value back to a pool label.
 func hLabelOfValue(v Value) (hLabel, bool) {
-	for t := 0; t < 4; t++ {
+	for t := 0; t < len(hTypeNames); t++ {
 		if v.Type == hType(t) {
 			return hLabel{Name: v.Name, T: t, Sub: v.Subtype}, true
 		}
